@@ -13,32 +13,32 @@ func ses(id, state, enc, comp, scheme string, cred *int) CIn {
 // the client alphabet: every session state, id variant, option choice, scheme and
 // credential class that the handshake distinguishes, plus non-session input, garbage and EOF
 var serverAlphabet = []CIn{
-	ses("", "new", "", "", "", nil),                       // 0 a fresh new session
-	ses("wrong", "new", "", "", "", nil),                  // 1 new with an id
-	ses("SID", "negotiating", "none", "none", "", nil),    // 2
-	ses("SID", "negotiating", "tls", "none", "", nil),     // 3
-	ses("SID", "negotiating", "none", "gzip", "", nil),    // 4 compression never offered
-	ses("SID", "negotiating", "", "", "", nil),            // 5 options absent
-	ses("wrong", "negotiating", "none", "none", "", nil),  // 6 wrong id
-	ses("SID", "negotiating", "rot13", "none", "", nil),   // 7 unknown option
-	ses("SID", "authenticating", "", "", "guest", ip(0)),  // 8
-	ses("SID", "authenticating", "", "", "plain", ip(1)),  // 9
-	ses("SID", "authenticating", "", "", "plain", ip(2)),  // 10
-	ses("SID", "authenticating", "", "", "key", ip(1)),    // 11
-	ses("SID", "authenticating", "", "", "plain", nil),    // 12 scheme without credentials
+	ses("", "new", "", "", "", nil),                        // 0 a fresh new session
+	ses("wrong", "new", "", "", "", nil),                   // 1 new with an id
+	ses("SID", "negotiating", "none", "none", "", nil),     // 2
+	ses("SID", "negotiating", "tls", "none", "", nil),      // 3
+	ses("SID", "negotiating", "none", "gzip", "", nil),     // 4 compression never offered
+	ses("SID", "negotiating", "", "", "", nil),             // 5 options absent
+	ses("wrong", "negotiating", "none", "none", "", nil),   // 6 wrong id
+	ses("SID", "negotiating", "rot13", "none", "", nil),    // 7 unknown option
+	ses("SID", "authenticating", "", "", "guest", ip(0)),   // 8
+	ses("SID", "authenticating", "", "", "plain", ip(1)),   // 9
+	ses("SID", "authenticating", "", "", "plain", ip(2)),   // 10
+	ses("SID", "authenticating", "", "", "key", ip(1)),     // 11
+	ses("SID", "authenticating", "", "", "plain", nil),     // 12 scheme without credentials
 	ses("wrong", "authenticating", "", "", "plain", ip(1)), // 13
-	ses("SID", "authenticating", "", "", "", nil),         // 14 no scheme
-	ses("", "authenticating", "", "", "plain", ip(1)),     // 15 id absent
-	ses("SID", "established", "", "", "", nil),            // 16
-	ses("SID", "finishing", "", "", "", nil),              // 17
-	ses("SID", "new", "", "", "", nil),                    // 18 new again
-	ses("SID", "failed", "", "", "", nil),                 // 19
-	ses("", "authenticating", "", "", "guest", ip(0)),     // 20 skips straight to authentication
-	{Kind: "data"},                                        // 21
-	{Kind: "bad"},                                         // 22
-	{Kind: "eof"},                                         // 23
-	{Kind: "data", Sub: "ping"},                           // 24 a ping request command (servers often auto-reply these)
-	{Kind: "data", Sub: "not"},                            // 25
+	ses("SID", "authenticating", "", "", "", nil),          // 14 no scheme
+	ses("", "authenticating", "", "", "plain", ip(1)),      // 15 id absent
+	ses("SID", "established", "", "", "", nil),             // 16
+	ses("SID", "finishing", "", "", "", nil),               // 17
+	ses("SID", "new", "", "", "", nil),                     // 18 new again
+	ses("SID", "failed", "", "", "", nil),                  // 19
+	ses("", "authenticating", "", "", "guest", ip(0)),      // 20 skips straight to authentication
+	{Kind: "data"},              // 21
+	{Kind: "bad"},               // 22
+	{Kind: "eof"},               // 23
+	{Kind: "data", Sub: "ping"}, // 24 a ping request command (servers often auto-reply these)
+	{Kind: "data", Sub: "not"},  // 25
 }
 
 var serverConfs = []*SConf{
